@@ -336,7 +336,13 @@ func rC05ParserGates(w *World, r *Report) {
 		for _, e := range effs {
 			isEff[e.Instr] = true
 		}
-		okFirst, wit := m.ig.mustPass(m.ig.after(mcIn), func(in ssa.Instruction) bool { return in == ssa.Instruction(amb) }, func(in ssa.Instruction) bool {
+		// an edge of another test of the candidate count on which several candidates are impossible (`case 0:` of a
+		// switch on the count) has been tested for several candidates as well
+		m.lenSets = map[*ssa.If][2][5]bool{}
+		m.matchLenTest(func(on, other [5]bool) bool { return false })
+		lenSets := m.lenSets
+		m.lenSets = nil
+		isTarget := func(in ssa.Instruction) bool {
 			if isEff[in] || in == ssa.Instruction(m.mainNext) {
 				return true
 			}
@@ -347,7 +353,22 @@ func rC05ParserGates(w *World, r *Report) {
 				return true
 			}
 			return false
+		}
+		seenF := m.ig.reachFromE(m.ig.after(mcIn), func(in ssa.Instruction) bool { return in == ssa.Instruction(amb) }, func(term ssa.Instruction, k int) bool {
+			if iff, ok := term.(*ssa.If); ok && k < 2 {
+				if sets, ok := lenSets[iff]; ok && !sets[k][2] && !sets[k][3] && !sets[k][4] {
+					return false
+				}
+			}
+			return true
 		})
+		okFirst, wit := true, ssa.Instruction(nil)
+		for i, sn := range seenF {
+			if sn && isTarget(m.ig.instrs[i]) && m.ig.instrs[i] != ssa.Instruction(amb) {
+				okFirst, wit = false, m.ig.instrs[i]
+				break
+			}
+		}
 		if okFirst {
 			ru.OK("ambiguity-first", w.IPos(amb), "every use of the matcher's result comes after the test for several candidates")
 		} else {
@@ -369,6 +390,35 @@ func rC05ParserGates(w *World, r *Report) {
 		}
 		g1 := edgeDominates(amb.Block(), 1-ambK, b)
 		g2 := edgeDominates(nm.Block(), 1-nmK, b)
+		if !(g1 && g2) && mc != nil {
+			// not by dominance (the cases of a switch on the count meet again before the block): by paths - with no
+			// candidate, or with several, the effect is unreachable from the matcher call along the edges that
+			// count allows
+			m.lenSets = map[*ssa.If][2][5]bool{}
+			m.matchLenTest(func(on, other [5]bool) bool { return false })
+			lenSets := m.lenSets
+			m.lenSets = nil
+			confined := len(lenSets) > 0
+			for _, c := range []int{0, 2} {
+				c := c
+				seenC := m.ig.reachFromE(m.ig.after(ssa.Instruction(mc)), func(in ssa.Instruction) bool {
+					return in == ssa.Instruction(m.mainNext) || in == ssa.Instruction(mc)
+				}, func(term ssa.Instruction, k int) bool {
+					if iff, ok := term.(*ssa.If); ok && k < 2 {
+						if sets, ok := lenSets[iff]; ok && !sets[k][c] {
+							return false
+						}
+					}
+					return true
+				})
+				if seenC[m.ig.idx[e.Instr]] {
+					confined = false
+				}
+			}
+			if confined {
+				g1, g2 = true, true
+			}
+		}
 		if g1 && g2 {
 			ru.OK(key, w.IPos(e.Instr), "only reached with exactly one candidate")
 		} else {
